@@ -23,6 +23,7 @@ import Driver.BlockDrv
 import Driver.SchedDrv
 import Driver.FreeDrv
 import Klev.Crash
+import Klev.CrashOpen
 open Klev Klev.Proto
 
 structure Side where
@@ -75,6 +76,7 @@ structure DState where
   blPre : Option Side := none        -- the log as it was when the blocking log was closed
   crashPre : Spec := ⟨[], 0⟩          -- L0 state before the operation in flight
   crashPreLog : Option Log := none   -- the model log before the operation in flight
+  crashPreDisk : List SegDisk := []  -- the model directory before the operation in flight (an Open)
   crashOp : List String := []        -- the operation in flight (tokens)
   crashArmed : Bool := false
   crashBases : List Int := []        -- segment bases from the listing before the operation in flight
@@ -132,6 +134,10 @@ def fullScan (l : Log) (mc : Nat) : Nat → Int → List Msg → Log × Out (Int
       if ms.isEmpty ∧ nxt = off then (l1, .ok (nxt, acc))
       else if ms.isEmpty ∧ off < 0 then (l1, .ok (nxt, acc))
       else fullScan l1 mc fuel nxt (acc ++ ms)
+
+/-- A full scan of the model log as the harness takes one (`scanMap`, 64 at a time): it loads the reader indexes. -/
+def scanFirst (sd : Side) (l : Log) : Log :=
+  (fullScan l 64 ((l.wNextOff + 4).toNat + 2 * l.segs.length + 64 + sd.spec.next.toNat) offsetOldest []).1
 
 def parseBatch (toks : List String) : Option (List (Option Int × Int × List UInt8 × List UInt8)) :=
   parseAll (fun t => match t.splitOn ":" with
@@ -352,7 +358,14 @@ def handle (sd : Side) (op : List String) (impl : List String) : Handled :=
             else fmtOut (fun (m : Msg) => s!"{m.off} {m.time}") r
           { side := { sd with mlog := some l1 }, model := txt, viols := v }
       | none => { side := sd, model := "bad-op" }
-    else if o = "del" ∨ o = "delmulti" then
+    else if o = "msize" then
+      -- Log.Size (C13): the record in the version new segments get, plus one index item
+      match parseMsg k with
+      | some m =>
+        let want := recSize sd.nsv m + sd.params.size
+        withLog sd fun _ => { side := sd, model := s!"ok {want}", viols := viol (impl == ["ok", toString want]) "SizeOK" }
+      | none => { side := sd, model := "bad-op" }
+    else if o = "del" ∨ o = "delmulti" ∨ o = "delmultio" then
       match parseInts k with
       | some offs =>
         if o = "del" then
@@ -386,6 +399,8 @@ def handle (sd : Side) (op : List String) (impl : List String) : Handled :=
               viol (decideB (Spec.sumSizes .v1 sd.params mo.msgs ≤ mo.size ∧ mo.size ≤ Spec.sumSizes .v2 sd.params mo.msgs)) "DeleteMultiOK.size"
             | none => ["DeleteMultiOK.unparsed"]
           withLog { sd with spec := spec' } fun l =>
+            -- (the offsets-only variant is observed through a scan taken before it: the model scans too)
+            let l := if o = "delmultio" then (scanFirst sd l) else l
             let (l1, r) := Helpers.deleteMulti l offs
             { side := { sd with spec := spec', mlog := some l1 }, model := fmtMulti r, viols := v }
       | none => { side := sd, model := "bad-op" }
@@ -439,7 +454,11 @@ def handle (sd : Side) (op : List String) (impl : List String) : Handled :=
       match a.toInt? with
       | none => { side := sd, model := "bad-op" }
       | some x =>
-        let multi := mflag = "1"
+        let multi := mflag = "1" ∨ mflag = "2"
+        let offsVariant := mflag = "2" ∧ ¬ (grp = "trim" ∧ kind = "size")
+        let isAll := grp = "compact" ∧ kind = "all"
+        -- klevdb.Compact(age): the cut-off is now (everything is older) or a century back (nothing is)
+        let cutAll : Int := if x = 0 then 9000000000000000000 else -9000000000000000000
         let implR := parseMulti impl
         let s := sd.spec
         let spec' := match implR with
@@ -476,11 +495,29 @@ def handle (sd : Side) (op : List String) (impl : List String) : Handled :=
              | "compact", "del" =>
                viol (decideB (Spec.CompactLatestOK s spec')) "CompactOK.latest" ++
                viol (decideB (Spec.CompactDeletesRemovedOK s x mo.msgs)) "CompactDeletesOK.removed"
+             | "compact", "all" =>
+               -- updates, then deletes: the latest value of every key stays; what goes is not newer than the
+               -- cut-off and either has a later message with its key or carries no value
+               viol (decideB (Spec.CompactLatestOK s spec')) "CompactOK.latest" ++
+               viol (mo.msgs.all (fun d => decide (d.time ≤ cutAll) &&
+                       (d.val.isEmpty || s.live.any (fun n => n.key == d.key && decide (d.off < n.off))))) "CompactAllOK.removed" ++
+               viol (!mono || x != 0 || decideB (Spec.AtMostOnePerKey spec' cutAll)) "CompactAllOK.one" ++
+               viol (!mono || x != 0 || spec'.live.all (fun m => !m.val.isEmpty)) "CompactAllOK.tombstones"
              | _, _ => ["TrimOK.kind"])
         let _ := delOffs
         withLog { sd with spec := spec' } fun l =>
           -- for the size trim, what FindBySize selects on the model is what may be removed
+          let l := if offsVariant ∨ isAll then scanFirst sd l else l
           let (l1, r) := match grp, kind with
+            | "compact", "all" =>
+              let (la, ra) := Helpers.thenDelete true (Helpers.findUpdates l cutAll)
+              (match ra.err with
+               | some _ => (scanFirst sd la, { ra with size := -1 })
+               | none =>
+                 let (lb, rb) := Helpers.thenDelete true (Helpers.findDeletes la cutAll)
+                 let lc := match rb.err with | some _ => lb | none => lb.gc
+                 -- observed through a scan taken after it
+                 (scanFirst sd lc, ⟨rb.err, ra.msgs ++ rb.msgs, -1⟩))
             | "trim", "off" => Helpers.thenDelete multi (Helpers.findByOffset l x)
             | "trim", "count" => Helpers.thenDelete multi (Helpers.findByCount l x)
             | "trim", "size" => Helpers.thenDelete multi (Helpers.findBySize l x)
@@ -627,7 +664,7 @@ def processLine (st : DState) (raw : String) : DState :=
       | [] => st
       | op0 :: restOps =>
         if op0 = "crash.begin" then
-          { st with crashPre := st.main.spec, crashPreLog := st.main.mlog, crashOp := [], crashArmed := true, counts := bump st.counts op0,
+          { st with crashPre := st.main.spec, crashPreLog := st.main.mlog, crashPreDisk := st.main.disk, crashOp := [], crashArmed := true, counts := bump st.counts op0,
                     crashBases := (st.main.fsVers.getD []).map (·.1) }
         else if op0 = "crash.end" then
           { st with crashArmed := false, counts := bump st.counts op0 }
@@ -670,6 +707,22 @@ def processLine (st : DState) (raw : String) : DState :=
               let states := (Crash.crashStates l0 op).map (fmtDisk l0.opts.params)
               if states.contains implLs then (none, "crash.state:modelled")
               else (some s!"impl={implLs} model-states={String.intercalate " | " states}", "crash.state:UNMODELLED")
+            | some fs, none, none =>
+              -- an Open in flight: the directory is one of the crash states of the Open program (Klev/CrashOpen.lean)
+              (match st.crashOp with
+               | "open" :: opts =>
+                 let oo := mkOpts opts
+                 let implLs := String.intercalate " " ((fs.splitOn ",").filter (fun t => !t.startsWith "extra:"))
+                 let implLs := match implLs.splitOn " " with
+                   | _ :: segs => String.intercalate " " (toString segs.length :: segs)
+                   | [] => implLs
+                 let states := (Crash.openCrashStates st.crashPreDisk oo).map (fmtDisk oo.opts.params)
+                 if states.contains implLs then
+                   -- which crash point it is (how far into the program), for the evidence
+                   let k := (states.findIdx? (· == implLs)).getD 0
+                   (none, s!"crash.openstate:modelled@{k}/{states.length - 1}")
+                 else (some s!"impl={implLs} model-open-states={String.intercalate " | " states}", "crash.openstate:UNMODELLED")
+               | _ => (none, "crash.state:n/a"))
             | _, _, _ => (none, "crash.state:n/a")
           let out := match sdiff with
             | some d => if st.main.msync then out.push s!"DIFF {st.line} crash-state {lhs} {d.take 900}" else out
